@@ -142,6 +142,12 @@ def d1_progress(ctx, idx):
                  'reset every round and set only when a pending dependent was removed', floor=5)
     with r:
         fi = idx.func(GSS)
+        try:
+            A0 = Anchors(idx)
+        except AnalysisError:
+            A0 = None
+        if A0 is not None and A0.planned:
+            return _d1_plan(r, A0)
         cfg = cfg_of(fi.node)
         whiles = [n for n in walk_own(fi.node) if isinstance(n, ast.While)]
         if len(whiles) != 1:
@@ -365,6 +371,17 @@ class Anchors(object):
             raise AnalysisError('gen_symbols_samples: expected one `while <pending dict>` loop')
         self.w = whiles[0]
         self.W = self.w.test.id
+        # the "planned" architecture: the fixed point is computed once, on names only, before the sample loop and yields an
+        # evaluation order; each sample then evaluates the dependents in that order
+        self.planned = False
+        self.eval_loop = None
+        comp = [c for c in walk_own(fn) if isinstance(c, ast.Call) and nf.callee_name(c) == 'compute_sample']
+        if len(comp) == 1 and not X.in_subtree(self.w, self.sample_loop) and not X.in_subtree(comp[0], self.w):
+            lp = X.enclosing_loop(lib.enclosing_stmt(comp[0]))
+            if isinstance(lp, ast.For) and lp is not self.sample_loop and X.in_subtree(lp, self.sample_loop):
+                self.planned = True
+                self.eval_loop = lp
+        self.stage = self.eval_loop if self.planned else self.w      # where the dependents are resolved, per sample
 
     def assigns(self, name):
         return [s for s in walk_own(self.fn) if isinstance(s, ast.Assign) and len(s.targets) == 1
@@ -405,6 +422,305 @@ def _is_dependent_test(test, key):
     return 0
 
 
+REGIONS = [(c, k) for c in (True, False) for k in ('dep', 'indep', 'head', 'none')]
+
+
+def _region_text(w):
+    c, k = w
+    what = {'dep': 'the name of a dependent variable', 'indep': 'the name of an independent variable',
+            'head': 'the head of a numbered variable', 'none': 'not the name of any variable'}[k]
+    if c:
+        return {'dep': 'a constant that is shadowed by a DEPENDENT variable (same name)', 'indep': 'a constant that is shadowed by an independent variable',
+                'head': 'a constant that no variable shadows', 'none': 'a constant that no variable shadows'}[k]
+    return 'a name that is no constant and is ' + what
+
+
+class NameSets(object):
+    """Collections of names in gen_symbols_samples as predicates over the Venn regions of a name: (is a key of `constants`,
+    none / head of a numbered variable / independent symbol / dependent symbol).  Purely symbolic: decides equality
+    and inclusion of the key sets built by set algebra and filtered comprehensions."""
+    WRAP = ('set', 'list', 'sorted', 'frozenset', 'tuple', 'dict', 'iter')
+
+    def __init__(self, A):
+        self.A = A
+        self.top = list(A.fn.body)
+
+    def _index(self, node):
+        for i, st in enumerate(self.top):
+            if X.in_subtree(node, st):
+                return i
+        return len(self.top)
+
+    def name(self, n, before):
+        if n == 'constants':
+            return lambda w: w[0]
+        if n == 'symbols':
+            return lambda w: w[1] in ('dep', 'indep')
+        if n == 'sample_from':
+            return lambda w: w[1] != 'none'
+        defs = self.A.assigns(n)
+        if not defs or any(d not in self.top for d in defs):
+            return None
+        earlier = [d for d in defs if self.top.index(d) < before]
+        if not earlier:
+            return None
+        d = earlier[-1]
+        return self.expr(d.value, self.top.index(d))
+
+    def expr(self, e, before):
+        if isinstance(e, ast.Name):
+            return self.name(e.id, before)
+        if isinstance(e, ast.Call) and isinstance(e.func, ast.Name) and e.func.id in self.WRAP and not e.keywords:
+            if not e.args:
+                return lambda w: False
+            return self.expr(e.args[0], before) if len(e.args) == 1 else None
+        if isinstance(e, (ast.List, ast.Set, ast.Tuple)):
+            if not e.elts:
+                return lambda w: False
+            parts = [self.expr(x.value, before) if isinstance(x, ast.Starred) else None for x in e.elts]
+            return None if any(p_ is None for p_ in parts) else (lambda w: any(p_(w) for p_ in parts))
+        if isinstance(e, ast.Dict) and not e.keys:
+            return lambda w: False
+        if isinstance(e, ast.Call) and isinstance(e.func, ast.Attribute) and not e.keywords:
+            base = self.expr(e.func.value, before)
+            if base is None:
+                return None
+            if e.func.attr in ('copy', 'keys') and not e.args:
+                return base
+            args = [self.expr(a, before) for a in e.args]
+            if any(a is None for a in args) or any(isinstance(a, ast.Starred) for a in e.args):
+                return None
+            if e.func.attr == 'union':
+                return lambda w: base(w) or any(a(w) for a in args)
+            if e.func.attr == 'difference':
+                return lambda w: base(w) and not any(a(w) for a in args)
+            if e.func.attr == 'intersection':
+                return lambda w: base(w) and all(a(w) for a in args)
+            return None
+        if isinstance(e, ast.BinOp) and isinstance(e.op, (ast.BitOr, ast.Add, ast.Sub, ast.BitAnd)):
+            l, r_ = self.expr(e.left, before), self.expr(e.right, before)
+            if l is None or r_ is None:
+                return None
+            if isinstance(e.op, (ast.BitOr, ast.Add)):
+                return lambda w: l(w) or r_(w)
+            if isinstance(e.op, ast.Sub):
+                return lambda w: l(w) and not r_(w)
+            return lambda w: l(w) and r_(w)
+        if isinstance(e, (ast.DictComp, ast.ListComp, ast.SetComp, ast.GeneratorExp)) and len(e.generators) == 1:
+            g = e.generators[0]
+            it = g.iter
+            items = False
+            if isinstance(it, ast.Call) and isinstance(it.func, ast.Attribute) and it.func.attr in ('items', 'keys') and not it.args:
+                items, it = it.func.attr == 'items', it.func.value
+            if items:
+                if not (isinstance(g.target, ast.Tuple) and len(g.target.elts) == 2 and isinstance(g.target.elts[0], ast.Name)):
+                    return None
+                key = g.target.elts[0].id
+            elif isinstance(g.target, ast.Name):
+                key = g.target.id
+            else:
+                return None
+            elt = e.key if isinstance(e, ast.DictComp) else e.elt
+            base = self.expr(it, before)
+            if base is None or not X.is_name(elt, key):
+                return None
+
+            def atom(t, key=key):
+                pol = _is_dependent_test(t, key)
+                if pol:
+                    return (lambda w: w[1] == 'dep') if pol > 0 else (lambda w: w[1] != 'dep')
+                for neg, ptn in ((False, "%s in _C" % key), (True, "%s not in _C" % key)):
+                    b = X.m(ptn, t)
+                    if b is not None:
+                        inner = self.expr(b['_C'], before)
+                        if inner is None:
+                            return None
+                        return (lambda w: not inner(w)) if neg else inner
+                return None
+            guards = X.Guards(atom)
+            try:
+                tests = [guards.compile(nf.canon(t)) for t in g.ifs]
+            except X.Unrecognised:
+                return None
+            return lambda w: base(w) and all(t(w) for t in tests)
+        return None
+
+
+class Plan(object):
+    """The constructs of the planned architecture (see Anchors.planned).  Everything is found through def-use; a part that
+    is not recognised raises AnalysisError (undecided), never a verdict."""
+
+    def __init__(self, A):
+        self.A = A
+        fi, fn, w = A.fi, A.fn, A.w
+        self.U = A.W
+        if w not in fn.body:
+            raise AnalysisError('gen_symbols_samples: the ordering loop is not a top-level statement')
+        self.windex = fn.body.index(w)
+        # the ready list of a round: R = [S for S, deps in U.items() if <readiness>]
+        self.R = self.ready = self.ready_test = self.AV = None
+        for st in w.body:
+            if isinstance(st, ast.Assign) and len(st.targets) == 1 and isinstance(st.targets[0], ast.Name):
+                c = _comp_over(st.value, {self.U})
+                if c is not None and not isinstance(c[0], ast.DictComp) and X.is_name(c[0].elt, c[1]) and len(c[2]) == 1 \
+                        and isinstance(c[0].generators[0].target, ast.Tuple):
+                    deps = c[0].generators[0].target.elts[1].id
+                    t = nf.canon(c[2][0])
+                    b = X.any_match(["is_subset(%s, _AV)" % deps, "all(_X in _AV for _X in %s)" % deps, "all([_X in _AV for _X in %s])" % deps,
+                                     "set(%s) <= _AV" % deps, "set(%s).issubset(_AV)" % deps], t)
+                    self.R, self.ready, self.ready_test = st.targets[0].id, st, t
+                    self.deps = deps
+                    if b is not None and isinstance(b['_AV'], ast.Name):
+                        self.AV = b['_AV'].id
+        if self.R is None:
+            raise AnalysisError('gen_symbols_samples: the ready dependents of a round are not computed by a recognised comprehension '
+                                'over the pending dict')
+        # the end-of-round test on R
+        self.tstmt = self.noprog_edge = None
+        for st in w.body:
+            if isinstance(st, ast.If):
+                t = nf.canon(st.test)
+                if X.any_match(["not %s" % self.R, "len(%s) == 0" % self.R, "%s == []" % self.R], t) is not None:
+                    self.tstmt, self.noprog_edge = st, 'true'
+                elif X.any_match(["%s" % self.R, "len(%s) > 0" % self.R, "len(%s)" % self.R, "%s != []" % self.R], t) is not None:
+                    self.tstmt, self.noprog_edge = st, 'false'
+        # the order list
+        it = A.eval_loop.iter
+        hops = 0
+        while isinstance(it, ast.Name) and hops < 4:
+            ds_ = A.assigns(it.id)
+            if len(ds_) == 1 and isinstance(ds_[0].value, ast.Name):
+                it, hops = ds_[0].value, hops + 1
+            else:
+                break
+        self.ORDER = it.id if isinstance(it, ast.Name) else None
+
+    def in_round(self, patterns):
+        out = []
+        for ptn in patterns:
+            out += [st for st, _ in X.find_stmts(self.A.w, ptn, own=False)]
+        return out
+
+    def each_ready(self, patterns_bulk, patterns_each):
+        """Statements of the round that apply something to every element of R: in bulk, or in `for s in R`."""
+        found = self.in_round([p_ % {'R': self.R} for p_ in patterns_bulk])
+        for lp in [n for n in ast.walk(self.A.w) if isinstance(n, ast.For) and X.is_name(n.iter, self.R) and isinstance(n.target, ast.Name)]:
+            for p_ in patterns_each:
+                found += [st for st, _ in X.find_stmts(lp, p_ % {'s': lp.target.id}, own=False)
+                          if X.enclosing_loop(st) is lp and not [a for a in _ancestors_in(st, lp) if isinstance(a, (ast.If, ast.Try))]]
+        return found
+
+
+def _d1_plan(r, A):
+    P = Plan(A)
+    fi, w = A.fi, A.w
+    cfg = cfg_of(fi.node)
+    wt = [n for n in cfg.nodes_of(w) if n.kind == 'test'][0]
+    r.check(P.ready in w.body and P.AV is not None, 'gen_symbols_samples: every round determines the ready dependents afresh',
+            short(P.ready, 100), 'the readiness test `%s` does not compare the depends with a set of available names' % short(P.ready_test),
+            lib.loc(fi, P.ready)) if P.AV is not None else r.undecided(
+        'gen_symbols_samples: every round determines the ready dependents afresh', 'readiness test not recognised: %s' % short(P.ready_test),
+        lib.loc(fi, P.ready))
+    if P.tstmt is None:
+        raise AnalysisError('gen_symbols_samples: no end-of-round test of the ready list `%s`' % P.R)
+    if not X.dominates(fi, P.ready, P.tstmt):
+        raise AnalysisError('the ready list is not computed before it is tested')
+    removed = P.each_ready(["for _S in %(R)s:\n    del {U}[_S]".replace('{U}', P.U)], ["del %s[%%(s)s]" % P.U, "%s.pop(%%(s)s)" % P.U])
+    removed = removed or [lp for lp in ast.walk(w) if isinstance(lp, ast.For) and X.is_name(lp.iter, P.R) and any(_removes_from(x, P.U) for x in lp.body)]
+    construct = 'gen_symbols_samples: every ready dependent leaves the pending dict in its round'
+    if removed:
+        r.ok(construct, short(removed[0], 60), lib.loc(fi, removed[0]))
+    else:
+        X.absent(r, construct, 'nothing is removed from %s for the ready dependents: the loop never ends' % P.U, lib.loc(fi, w),
+                 understood=X.only_calls([w], {'is_subset', 'items', 'update', 'extend', 'sorted', 'join', 'keys', 'values', 'union', 'set', 'ConfigError'}))
+    avail = P.each_ready(["%s.update(%%(R)s)" % P.AV, "%s |= set(%%(R)s)" % P.AV, "%s = %s | set(%%(R)s)" % (P.AV, P.AV),
+                          "%s = %s.union(%%(R)s)" % (P.AV, P.AV)], ["%s.add(%%(s)s)" % P.AV]) if P.AV else []
+    construct = 'gen_symbols_samples: dependents scheduled in a round are available in the next'
+    if avail:
+        r.check(X.dominates(fi, P.ready, avail[0]), construct, short(avail[0]),
+                'the ready names are added to `%s` before the ready list of the round is computed' % P.AV, lib.loc(fi, avail[0]))
+    elif P.AV:
+        X.absent(r, construct, 'the scheduled names never become available: a dependent that depends on another dependent is never ready '
+                 'and a valid chain is reported as circular', lib.loc(fi, w),
+                 understood=all(x is P.ready or X.in_subtree(x, P.tstmt) for x in ast.walk(w) if isinstance(x, ast.stmt) and x is not w
+                                and not isinstance(x, (ast.If, ast.For)) and X.mentions(x, P.AV)))
+    construct = 'gen_symbols_samples: the evaluation order lists every scheduled dependent, round after round'
+    if P.ORDER is None:
+        r.undecided(construct, 'the evaluation loop does not run over a list built by the ordering loop: %s' % short(A.eval_loop.iter), lib.loc(fi, A.eval_loop))
+    else:
+        ext = P.each_ready(["%s.extend(%%(R)s)" % P.ORDER, "%s += %%(R)s" % P.ORDER, "%s = %s + %%(R)s" % (P.ORDER, P.ORDER)],
+                           ["%s.append(%%(s)s)" % P.ORDER])
+        oinit = A.assigns(P.ORDER)
+        init_ok = len([d for d in oinit if not X.in_subtree(d, w)]) == 1 and isinstance(oinit[0].value, ast.List) and not oinit[0].value.elts \
+            and X.dominates(fi, oinit[0], w)
+        if ext and init_ok:
+            r.ok(construct, short(ext[0]), lib.loc(fi, ext[0]))
+        elif not ext:
+            X.absent(r, construct, 'the ready dependents are not appended to `%s`: they are never evaluated and are missing from every sample' % P.ORDER,
+                     lib.loc(fi, w), understood=not [x for x in ast.walk(w) if isinstance(x, ast.stmt) and x is not w and X.mentions(x, P.ORDER)])
+        else:
+            r.undecided(construct, 'initialisation of `%s` not recognised' % P.ORDER, lib.loc(fi, w))
+    _no_progress_raises(r, fi, cfg, w, wt, P.tstmt, P.noprog_edge, lib.loc(fi, P.tstmt))
+
+
+def _d3_plan(r, A, st, S):
+    """Readiness in the planned architecture: the order is computed against a SET OF NAMES; it is sound exactly when that
+    set equals the keys every sample holds before its dependents are evaluated."""
+    P = Plan(A)
+    fi = A.fi
+    construct = 'gen_symbols_samples: a dependent is computed only when all its depends are in the sample'
+    lp = A.eval_loop
+    if not (isinstance(lp.target, ast.Name) and nf.equal(lp.target, S) and P.ORDER is not None):
+        r.undecided(construct, 'evaluation loop not recognised: %s' % short(lp, 80), lib.loc(fi, lp))
+        return
+    if P.AV is None:
+        r.undecided(construct, 'readiness test of the ordering loop not recognised: %s' % short(P.ready_test), lib.loc(fi, P.ready))
+        return
+    sets = NameSets(A)
+    av = sets.name(P.AV, P.windex)
+    # the keys of a fresh sample before the evaluation loop
+    dinit = A.assigns(A.D)
+    d0 = None
+    touching = [x for x in A.sample_loop.body if X.mentions(x, A.D)]
+    if len(dinit) == 1 and dinit[0] in A.sample_loop.body:
+        end = len(A.fn.body)
+        parts = [sets.expr(dinit[0].value, end)]
+        rest = [x for x in touching if x is not dinit[0] and x is not lp and x is not A.append]
+        for x in rest:
+            b = X.m(X.spat("%s.update(_E)" % A.D), x)
+            if b is not None:
+                parts.append(sets.expr(b['_E'], end))
+            elif isinstance(x, ast.For) and isinstance(x.target, ast.Name) and len(x.body) == 1 and X.m(
+                    X.spat("%s[%s] = _V" % (A.D, x.target.id)), x.body[0]) is not None:
+                parts.append(sets.expr(x.iter, end))
+            else:
+                parts.append(None)
+        if all(p_ is not None for p_ in parts) and X.dominates(fi, dinit[0], lp):
+            d0 = lambda w: any(p_(w) for p_ in parts)
+    if av is None or d0 is None:
+        r.undecided(construct, 'the set of names available to the ordering loop (`%s`) or the initial keys of the sample dict are not '
+                    'recognised as set expressions over constants / symbols' % P.AV, lib.loc(fi, P.ready))
+        return
+    over = [w for w in REGIONS if av(w) and not d0(w)]
+    under = [w for w in REGIONS if d0(w) and not av(w)]
+    avdef = [d for d in A.assigns(P.AV) if d in A.fn.body and A.fn.body.index(d) < P.windex]
+    where = lib.loc(fi, avdef[0] if avdef else P.ready)
+    shown = short(lib.inline_locals(ast.Name(id=P.AV, ctx=ast.Load()), A.fn), 90) if False else short(avdef[0].value if avdef else P.ready_test, 90)
+    if over:
+        r.violation(construct, 'the evaluation order is planned with `%s` = `%s` as the names that have a value before any dependent is evaluated, '
+                    'but %s is counted there although no sample holds it at that point (each sample starts from `%s` plus the independent '
+                    'draws): a dependent that uses that name is scheduled in the same round as (possibly before) the variable itself and its '
+                    'formula is evaluated while the name is still missing' % (P.AV, shown, _region_text(over[0]), short(dinit[0].value)),
+                    where, expected='the keys the sample dict starts with: pruned constants and independent symbols')
+    elif under:
+        r.violation(construct, 'the evaluation order is planned with `%s` = `%s`, which leaves out %s although every sample holds it from the start: '
+                    'dependents that use it are reported as undefined / circular' % (P.AV, shown, _region_text(under[0])), where,
+                    expected='the keys the sample dict starts with: pruned constants and independent symbols')
+    else:
+        r.ok(construct, 'planned against `%s`, equal on every Venn region to the initial keys of the sample dict; evaluated in that order'
+             % shown, where)
+
+
 def d2_keys(ctx, idx):
     r = ctx.rule('D2.KEYS', 'every sample dict = copy of the unshadowed constants + a draw for every independent symbol + every '
                  'dependent (loop exit), made afresh inside the per-sample loop', floor=8)
@@ -415,7 +731,7 @@ def d2_keys(ctx, idx):
         verdict(r, 'gen_symbols_samples: one sample per requested sample', nf.classify("range(samples)", A.sample_loop.iter),
                 lib.loc(fi, A.sample_loop), 'for _ in range(samples)', expected='range(samples)',
                 why='the graders index the returned list with range(config[samples])')
-        r.check(X.in_subtree(A.w, A.sample_loop) and X.dominates(fi, A.w, A.append) and not X.in_subtree(A.append, A.w),
+        r.check(X.in_subtree(A.stage, A.sample_loop) and X.dominates(fi, A.stage, A.append) and not X.in_subtree(A.append, A.stage),
                 'gen_symbols_samples: the sample is collected after the dependency loop has ended',
                 '`while %s` precedes %s.append(%s)' % (A.W, A.LIST, A.D),
                 'the sample dict is appended before/inside the dependency loop: dependents may be missing from it', lib.loc(fi, A.append))
@@ -522,6 +838,11 @@ def d2_keys(ctx, idx):
             if c_ is None or isinstance(c_[0], ast.DictComp) or not X.is_name(c_[0].elt, c_[1]) or len(c_[2]) != 1:
                 return None
             return _is_dependent_test(c_[2][0], c_[1]) or None
+        if A.planned:
+            # the ordering loop consumes a copy of the dependents' dict; it runs once, before the samples
+            src_ = X.copy_source(wdefs[0].value)
+            if isinstance(src_, ast.Name) and len(A.assigns(src_.id)) == 1:
+                wdefs = A.assigns(src_.id)
         cands = {'symbols'} | {n for n in (x.id for x in ast.walk(wdefs[0].value) if isinstance(x, ast.Name)) if subset_polarity(n) in (1, -1)}
         cw = _comp_over(wdefs[0].value, cands)
         if cw is None or not isinstance(cw[0], ast.DictComp):
@@ -538,13 +859,13 @@ def d2_keys(ctx, idx):
                 eff = 0
             elif base in (1, -1) and not ifs:
                 eff = base
-            if eff == 1 and valok and X.in_subtree(wdefs[0], A.sample_loop):
+            if eff == 1 and valok and (X.in_subtree(wdefs[0], A.sample_loop) or (A.planned and X.dominates(fi, wdefs[0], A.w))):
                 r.ok(construct_w, short(wdefs[0].value, 90), lib.loc(fi, wdefs[0]))
             elif eff == -1:
                 r.violation(construct_w, 'the selection is negated: the independent symbols are treated as pending dependents', lib.loc(fi, wdefs[0]))
             elif eff == 0:
                 r.violation(construct_w, 'no filter: every symbol is treated as a dependent', lib.loc(fi, wdefs[0]))
-            elif eff == 1 and valok and not X.in_subtree(wdefs[0], A.sample_loop):
+            elif eff == 1 and valok and not X.in_subtree(wdefs[0], A.sample_loop) and not A.planned:
                 r.violation(construct_w, 'the pending dict is built once outside the sample loop: after the first sample it is empty and '
                             'later samples contain no dependents', lib.loc(fi, wdefs[0]))
             else:
@@ -585,7 +906,7 @@ def d2_keys(ctx, idx):
                 # the dict of draws may be bound to a name first
                 if isinstance(st, ast.Assign) and len(st.targets) == 1 and isinstance(st.targets[0], ast.Name):
                     into = bool(X.find_stmts(A.sample_loop, "%s.update(%s)" % (A.D, st.targets[0].id), own=False))
-            r.check(into and X.dominates(fi, st, A.w), construct, 'drawn into the sample dict before the dependency loop',
+            r.check(into and X.dominates(fi, st, A.stage), construct, 'drawn into the sample dict before the dependency loop',
                     'the draws are not merged into the sample dict before the dependents are resolved', lib.loc(fi, st))
         construct_i = 'gen_symbols_samples: the independent symbols are exactly the non-DependentSampler symbols'
         if I is not None:
@@ -645,6 +966,10 @@ def d3_roles(ctx, idx):
         r.check(not probs, construct, short(st, 100), '; '.join(probs), lib.loc(fi, st),
                 expected='sample_dict[symbol] = sample_from[symbol].compute_sample(sample_dict, functions, suffixes)')
         S = b['_S']
+        if A.planned:
+            _sub(r, _d3_plan, r, A, st, S)
+            _d3_is_subset(r, idx)
+            return
         # the loop providing (symbol, dependencies) from the pending dict
         loop = X.enclosing_loop(st)
         deps = None
@@ -684,23 +1009,26 @@ def d3_roles(ctx, idx):
             else:
                 verdict(r, construct, nf.classify(pats[0], core), lib.loc(fi, guard[0]), short(core), expected='is_subset(dependencies, sample_dict)',
                         why='the test must ask whether the depends are contained in the sample, not the reverse')
-        # is_subset itself
-        sub = idx.func('mitxgraders.sampling.is_subset')
-        construct = 'is_subset: true exactly when every item is in the superset'
-        a, bname = sub.params[0], sub.params[1]
-        body = _body(sub.node.body)
-        done = False
-        if len(body) == 1 and isinstance(body[0], ast.Return):
-            for ptn in ("all(_X in %s for _X in %s)" % (bname, a), "all([_X in %s for _X in %s])" % (bname, a), "set(%s) <= set(%s)" % (a, bname),
-                        "set(%s).issubset(%s)" % (a, bname)):
-                if X.m(ptn, body[0].value) is not None:
-                    r.ok(construct, short(body[0].value), sub.loc)
-                    done = True
-                    break
-        else:
-            done = _subset_loop(r, sub, construct, a, bname)
-        if not done:
-            r.undecided(construct, 'body not recognised', sub.loc)
+        _d3_is_subset(r, idx)
+
+
+def _d3_is_subset(r, idx):
+    sub = idx.func('mitxgraders.sampling.is_subset')
+    construct = 'is_subset: true exactly when every item is in the superset'
+    a, bname = sub.params[0], sub.params[1]
+    body = _body(sub.node.body)
+    done = False
+    if len(body) == 1 and isinstance(body[0], ast.Return):
+        for ptn in ("all(_X in %s for _X in %s)" % (bname, a), "all([_X in %s for _X in %s])" % (bname, a), "set(%s) <= set(%s)" % (a, bname),
+                    "set(%s).issubset(%s)" % (a, bname)):
+            if X.m(ptn, body[0].value) is not None:
+                r.ok(construct, short(body[0].value), sub.loc)
+                done = True
+                break
+    else:
+        done = _subset_loop(r, sub, construct, a, bname)
+    if not done:
+        r.undecided(construct, 'body not recognised', sub.loc)
 
 
 def _subset_loop(r, sub, construct, a, bname):
@@ -1824,7 +2152,18 @@ _W5_NEW = ("        unassigned = set(vars_used).difference(variable_list)\n"
            "        sample_from_dict.update({\n            full_string: sample_from_dict[head] for full_string, %s in numbered\n        })\n")
 
 
+_W5J_HELPER = ('def gen_symbols_samples(symbols,',
+               'def order_dependents(dependents, available):\n    """\n    Helper function for gen_symbols_samples below.\n    Takes a dictionary mapping dependent symbols to their lists of dependencies and the\n    names that have values before any of them is evaluated. Returns the dependent symbols\n    in an order in which they can be evaluated, following chains as necessary.\n    """\n    available = set(available)\n    unordered = dict(dependents)\n    ordered = []\n    while unordered:\n        ready = [symbol for symbol, dependencies in unordered.items()\n                 if is_subset(dependencies, available)]\n        if not ready:\n            # Two possible causes\n            # 1: Depends on variables that are undefined\n            # Check for this first\n            all_depends = set().union(*unordered.values())\n            bad_items = [item for item in all_depends\n                         if item not in unordered and item not in available]\n            if bad_items:\n                bad_symbols = ", ".join(sorted(bad_items))\n                raise ConfigError("DependentSamplers depend on undefined quantities: " +\n                                  bad_symbols)\n\n            # 2: Circular dependencies\n            bad_symbols = ", ".join(sorted(unordered.keys()))\n            raise ConfigError("Circularly dependent DependentSamplers detected: " +\n                              bad_symbols)\n\n        for symbol in ready:\n            del unordered[symbol]\n        available.update(ready)\n        ordered.extend(ready)\n    return ordered\n\ndef gen_symbols_samples(symbols,')
+_W5J_MID = ('    pruned_constants = {sym: constants[sym] for sym in constants if sym not in symbols}\n',
+            "    dependents = {\n        symbol: sample_from[symbol].config['depends'] for symbol in symbols\n        if isinstance(sample_from[symbol], DependentSampler)\n    }\n\n    pruned_constants = {sym: constants[sym] for sym in constants if sym not in symbols}\n\n    # The evaluation order of the dependent symbols is the same for every sample\n    evaluation_order = order_dependents(dependents, set(%s).union(independent))\n\n")
+_W5J_LOOP = ('        # Generate dependent samples, following chains as necessary\n        unevaluated_dependents = {\n            symbol: sample_from[symbol].config[\'depends\'] for symbol in symbols\n            if isinstance(sample_from[symbol], DependentSampler)\n        }\n        while unevaluated_dependents:\n            progress_made = False\n            for symbol, dependencies in list(unevaluated_dependents.items()):\n                if is_subset(dependencies, sample_dict):\n                    sample_dict[symbol] = sample_from[symbol].compute_sample(\n                        sample_dict, functions, suffixes)\n                    del unevaluated_dependents[symbol]\n                    progress_made = True\n\n            if not progress_made:\n                # Two possible causes\n                # 1: Depends on variables that are undefined\n                # Check for this first\n                all_depends = set()\n                for symbol, dependencies in list(unevaluated_dependents.items()):\n                    for item in dependencies:\n                        all_depends.add(item)\n                bad_items = []\n                for item in all_depends:\n                    if item not in unevaluated_dependents and item not in sample_dict:\n                        bad_items.append(item)\n                if bad_items:\n                    bad_symbols = ", ".join(sorted(bad_items))\n                    raise ConfigError("DependentSamplers depend on undefined quantities: " +\n                                      bad_symbols)\n\n                # 2: Circular dependencies\n                bad_symbols = ", ".join(sorted(unevaluated_dependents.keys()))\n                raise ConfigError("Circularly dependent DependentSamplers detected: " +\n                                  bad_symbols)\n\n',
+             '        # Generate dependent samples\n        for symbol in evaluation_order:\n            sample_dict[symbol] = sample_from[symbol].compute_sample(\n                sample_dict, functions, suffixes)\n\n')
+
 MUTANTS = [
+    Mutant('planned-order-never-makes-ready-available', SAMPLING, [(_W5J_HELPER[0], _W5J_HELPER[1].replace("        available.update(ready)\n", "")),
+                                                                   (_W5J_MID[0], _W5J_MID[1] % 'pruned_constants'), _W5J_LOOP], None, 'D1'),
+    Mutant('planned-order-without-independents', SAMPLING, [_W5J_HELPER, (_W5J_MID[0], _W5J_MID[1].replace('.union(independent)', '') % 'pruned_constants'), _W5J_LOOP], None, 'D3'),
+    Mutant('planned-order-counts-shadowed-constants', SAMPLING, [_W5J_HELPER, (_W5J_MID[0], _W5J_MID[1] % 'constants'), _W5J_LOOP], None, 'D3'),
     Mutant('numbered-pairs-stale-head', MH, [_W5_HELPER, (_W5_OLD, _W5_NEW % '_')], None, 'D5'),
     Mutant('circular-raise-removed', SAMPLING, "                bad_symbols = \", \".join(sorted(unevaluated_dependents.keys()))\n                raise ConfigError(\"Circularly dependent DependentSamplers detected: \" +\n                                  bad_symbols)\n",
            "                bad_symbols = \", \".join(sorted(unevaluated_dependents.keys()))\n", 'D1'),
@@ -1884,6 +2223,7 @@ MUTANTS = [
 ]
 
 BENIGN = [
+    Benign('evaluation-order-planned-once', SAMPLING, [_W5J_HELPER, (_W5J_MID[0], _W5J_MID[1] % 'pruned_constants'), _W5J_LOOP], None),
     Benign('numbered-pairs-by-comprehension', MH, [_W5_HELPER, (_W5_OLD, _W5_NEW % 'head')], None),
     Benign('progress-flag-snapshot', SAMPLING, "            if not progress_made:\n", "            made_progress = progress_made\n            if not made_progress:\n"),
     Benign('evaluator-called-positionally', SAMPLING, "            result, _ = evaluator(formula=self.config['formula'],\n                                  variables=sample_dict,\n                                  functions=functions,\n                                  suffixes=suffixes)",
